@@ -16,14 +16,18 @@ def CompOK (cfg : Cfg) (m : InMsg) : Prop :=
 /-- SendingTime (52) is a timestamp strictly within ±120 s of the clock -/
 def TimeOK (m : InMsg) : Prop := ∃ d, getTime m 52 = .val d ∧ -120 < d ∧ d < 120
 
-/-- message validation (the default validator): no field with an empty value -/
+/-- no field with an empty value (what the default validator with its default settings insists on, besides field order) -/
 def NoEmpty (m : InMsg) : Prop := ∀ p ∈ m.f, p.2.isEmpty = false
+
+/-- message validation: the configured validator (`cfg.validator`: the five settings and the data dictionaries, if any;
+    `Qfx.Validate`, the validator model of C15, run on the parsed message) has no objection -/
+def Valid (cfg : Cfg) (m : InMsg) : Prop := validate cfg m = none
 
 /-- the part of the gate that is a function of the configuration and the message only -/
 structure GateMsg (cfg : Cfg) (m : InMsg) : Prop where
   begin : BeginOK cfg m
   comp : CompOK cfg m
-  valid : NoEmpty m
+  valid : Valid cfg m
 
 /-- the SendingTime clause: checked unless disabled or a replay is in progress -/
 def TimeGate (s : Sess) (m : InMsg) : Prop := s.cfg.skipLatency = true ∨ (curResend s).isSome = true ∨ TimeOK m
@@ -42,7 +46,7 @@ def isCb : Obs → Bool
     gate.  FromAdmin for a Logon happens before the session-level checks (only validation is guaranteed). -/
 def gateObs (cfg : Cfg) (P : InMsg → Prop) : Obs → Prop
   | .fromApp seq _ => ∃ m, P m ∧ seqText m = seq ∧ isAdminKind (kindOf m) = false ∧ GateMsg cfg m
-  | .fromAdmin k seq => ∃ m, P m ∧ seqText m = seq ∧ kindOf m = k ∧ NoEmpty m ∧ (k ≠ "A" → GateMsg cfg m)
+  | .fromAdmin k seq => ∃ m, P m ∧ seqText m = seq ∧ kindOf m = k ∧ Valid cfg m ∧ (k ≠ "A" → GateMsg cfg m)
   | .onLogon => ∃ m, P m ∧ kindOf m = "A" ∧ GateMsg cfg m ∧ callbackVerdict m = none
   | _ => True
 
